@@ -48,9 +48,9 @@ CLAIMED.update({
  'C11': ('raise-site typing over the resolved class hierarchy (327 sites) + exception_cls default/argument flow + sibling check of make_func routes + family layering + guard dominance of first-hash sites + wrapper try-body facts',
          'Every raise in the package is a BeartypeException subclass, a re-raise, a forwarded exception_cls parameter or one of 14 reviewed protocol-mandated builtin raises; exception_cls defaults and arguments are beartype classes; both routes into make_func pass a public class; each sub-package raises only its own family; the placeholder re-raise keeps the object; the first hash of raw user input in entry functions is guarded; generated wrappers never put the call-through in a try.',
          AST_NOTE + ' Implicit exceptions from arbitrary hint objects are out of scope. Known finding F9; F8 repaired in /repo (fix: 804fb18).', 'DESIGN.md §4 C11'),
- 'C13': ('return-value identity analysis + loop-source and guard checks + no-op branch analysis + descriptor dispatch table and rebuild-shape checks + writer/reader name agreement',
-         'beartype_type returns its parameter on every path and the non-fatal route returns the object; only own members (cls.__dict__) and lexically nested classes are decorated; every no-op condition of beartype_func returns the callable itself; classmethod/staticmethod/property are rebuilt as what they were with all parts; wrappers carry the wrappee metadata and the already-beartyped marker is written and read under one name.',
-         AST_NOTE, 'DESIGN.md §4 C13'),
+ 'C13': ('abstract interpretation (the analyser\'s own interpreter) of beartype_type over abstract classes, of the builtin-descriptor decorators over abstract classmethod/staticmethod/property objects, of beartype_object\'s route selection and of the type-attribute cache accessors over abstract classes + no-op branch analysis of beartype_func + writer/reader agreement of the function marker + marker-ownership scan',
+         'beartype_type returns the class it was given, decorates exactly the beartypeable own members (cls.__dict__; classes only when lexically nested) with the extended class stack and the same configuration, replaces them on the class itself, marks the class under the key its idempotence guard reads and leaves an already marked class untouched; what set_type_attr_cached stores is what get_type_attr_cached_or_sentinel reads back, per class; every no-op condition of beartype_func returns the callable itself; classmethod/staticmethod/property are rebuilt as what they were around the decorated versions of their own parts (absent parts stay absent, docstring kept); wrappers carry the metadata of the decorated callable; members of a class take the same fatal/non-fatal route as module-level callables.',
+         AST_NOTE + ' Known finding F18b; F20 repaired in /repo (fix: 19e5c58).', 'DESIGN.md §4 C13'),
  'C14': ('discovery of module-level tables written at run time + clear-list membership + key-derivation classification (lossy / id) + key-completeness of the explicit memo tables + call-graph effect summaries (impure reads under exception-memoising decorators) + must-dataflow typestate of pooled objects + positional-call scan',
          'Every run-time memo table is cleared by clear_caches or reasoned exempt; no memo key stands in lossily (repr / id without retention) for the memoised object; every parameter of the explicitly memoised computations is in the key or tracked by the cacheability flag that guards the store; functions whose exceptions are memoised do not depend on the environment; pooled scratch objects are released on every path and never escape; memoised functions are only called positionally.',
          AST_NOTE + ' Known findings F3, F13.', 'DESIGN.md §4 C14'),
